@@ -28,6 +28,9 @@ pub struct Cache {
     measure_entries: [Option<CacheEntry<Size<f32>>>; CACHE_SIZE],
     /// Tracks if all cache entries are empty
     is_empty: bool,
+    /// Verification hook: entries keyed by the complete `LayoutInput` (exact-key mode only)
+    #[cfg(taffy_verif)]
+    verif_exact: Vec<(crate::tree::LayoutInput, LayoutOutput)>,
 }
 
 impl Default for Cache {
@@ -38,8 +41,20 @@ impl Default for Cache {
 
 impl Cache {
     /// Create a new empty cache
+    #[cfg(not(taffy_verif))]
     pub const fn new() -> Self {
         Self { final_layout_entry: None, measure_entries: [None; CACHE_SIZE], is_empty: true }
+    }
+
+    /// Create a new empty cache (verification build: with the exact-key side table)
+    #[cfg(taffy_verif)]
+    pub const fn new() -> Self {
+        Self {
+            final_layout_entry: None,
+            measure_entries: [None; CACHE_SIZE],
+            is_empty: true,
+            verif_exact: Vec::new(),
+        }
     }
 
     /// Return the cache slot to cache the current computed result in
@@ -114,6 +129,12 @@ impl Cache {
         available_space: Size<AvailableSpace>,
         run_mode: RunMode,
     ) -> Option<LayoutOutput> {
+        #[cfg(taffy_verif)]
+        if crate::verif_hooks::exact_key_mode() {
+            if let Some(cur) = crate::verif_hooks::current_input() {
+                return self.verif_exact.iter().find(|(k, _)| crate::verif_hooks::same_input(k, &cur)).map(|(_, v)| *v);
+            }
+        }
         match run_mode {
             RunMode::PerformLayout => self
                 .final_layout_entry
@@ -160,6 +181,16 @@ impl Cache {
         run_mode: RunMode,
         layout_output: LayoutOutput,
     ) {
+        #[cfg(taffy_verif)]
+        if crate::verif_hooks::exact_key_mode() {
+            if let Some(cur) = crate::verif_hooks::current_input() {
+                if run_mode != RunMode::PerformHiddenLayout {
+                    self.is_empty = false;
+                    self.verif_exact.push((cur, layout_output));
+                }
+                return;
+            }
+        }
         match run_mode {
             RunMode::PerformLayout => {
                 self.is_empty = false;
@@ -181,6 +212,8 @@ impl Cache {
             return ClearState::AlreadyEmpty;
         }
         self.is_empty = true;
+        #[cfg(taffy_verif)]
+        self.verif_exact.clear();
         self.final_layout_entry = None;
         self.measure_entries = [None; CACHE_SIZE];
         ClearState::Cleared
